@@ -41,8 +41,9 @@ Record cfg := mkCfg {
 Definition SIZE_LIMIT : N := 18446744073709551616.
 
 (* align_address: (addr + maxalign - 1) & ~(maxalign - 1), then the poison gap
-   when the padding is smaller than poison_size.  Offsets stay far below 2^64
-   (lemma frames_bounded in ArenaProofs.v), so the u64 operations do not wrap. *)
+   when the padding is smaller than poison_size.  The offsets the arena computes
+   stay below 2^64 (theorem no_u64_wrap in ArenaThms.v), so the uint64_t
+   operations are the operations on N written here. *)
 Definition round_up (c : cfg) (x : N) : N := N.ldiff (x + (c_ma c - 1)) (c_ma c - 1).
 
 Definition align_off (c : cfg) (x : N) : N :=
@@ -164,14 +165,16 @@ Fixpoint grow (fuel : nat) (fs total : N) : option N :=
 (* arena_scope_validate *)
 Definition validate (a : arena) (s : scope) : bool := s_id s =? a_refs a.
 
-(* arena_malloc *)
+(* arena_malloc.  The bytes of the block handed out are indeterminate for the
+   caller (whatever an earlier, dead block left there): they become CUndef. *)
 Definition malloc (c : cfg) (a : arena) (s : scope) (size : N) : res (loc * arena) :=
   if negb (validate a s) then Trap else
   match a_frames a with
   | [] => Crash
   | fr :: rest =>
     match push c fr size with
-    | Some (off, fr') => Ok ((length rest, off), mkArena (fr' :: rest) (a_refs a) (a_mem a))
+    | Some (off, fr') =>
+        Ok ((length rest, off), mkArena (fr' :: rest) (a_refs a) (mem_fill (a_mem a) (length rest, off) size CUndef))
     | None =>
       let total := c_gap c + (size + c_hdr c) in
       if (SIZE_LIMIT <=? size + c_hdr c) || (SIZE_LIMIT <=? total) then Exit1 else
@@ -187,7 +190,8 @@ Definition malloc (c : cfg) (a : arena) (s : scope) (size : N) : res (loc * aren
             match push c fr1 size with
             | None => Exit1
             | Some (off, fr1') =>
-                Ok ((length rest1, off), mkArena (fr1' :: rest1) (a_refs a1) (a_mem a1))
+                Ok ((length rest1, off),
+                    mkArena (fr1' :: rest1) (a_refs a1) (mem_fill (a_mem a1) (length rest1, off) size CUndef))
             end
           end
         end
@@ -214,7 +218,10 @@ Definition realloc_fast (c : cfg) (a : arena) (s : scope) (p : loc) (old new : N
       if Nat.eqb (fst p) (length rest) && (align_off c (snd p + old) =? f_len fr) then
         match push c (mkFrame (f_size fr) (snd p)) new with
         | None => Ok (false, a)
-        | Some (_, fr') => Ok (true, mkArena (fr' :: rest) (a_refs a) (a_mem a))
+        | Some (_, fr') =>
+            (* the bytes gained are indeterminate for the caller *)
+            Ok (true, mkArena (fr' :: rest) (a_refs a)
+                              (mem_fill (a_mem a) (fst p, snd p + old) (new - old) CUndef))
         end
       else Ok (false, a)
     end.
